@@ -478,6 +478,32 @@ struct OptDriver : DriverBase<OptDriver<T>> {
             bool const engaged = st.k[0] % 3 != 0;
             ctx.log.kv("engaged", engaged);
             ctx.log.kv("v", val);
+            if constexpr (copyable && is_tracked_v<T>) {
+                if (engaged && st.k[2] % 4 == 0) {
+                    // from an rvalue optional<T&>: a reference optional is shallow, the referent is copied - never moved
+                    // from - whatever the value category of the optional itself
+                    T referent(val);
+                    bool const viaCtor = st.k[1] % 2 == 0;
+                    bool ok2           = call(a, false, false, [&] {
+                        etl::optional<T&> ro(referent);
+                        if (viaCtor) {
+                            O tmp(static_cast<etl::optional<T&>&&>(ro));
+                            v = static_cast<O&&>(tmp);
+                        } else {
+                            v = static_cast<etl::optional<T&>&&>(ro);
+                        }
+                    });
+                    if (ok2) {
+                        if (referent.v != val) {
+                            ctx.violation("C07", "diff:optional:referent-moved-from", "converting from an rvalue optional<T&> moved from the object it refers to");
+                        }
+                        m         = val;
+                        unspec[a] = false;
+                        changed(was, true);
+                    }
+                    return;
+                }
+            }
             OU src = engaged ? OU(static_cast<U>(val)) : OU();
             bool ok = call(a, false, false, [&] {
                 if (st.k[1] % 2 == 0) {
@@ -2484,13 +2510,62 @@ struct TrackedAmp : Tracked {
     auto operator&() const -> int const* { return std::addressof(this->v); }
 };
 
-struct AmpDriver : DriverBase<AmpDriver> {
-    using Base = DriverBase<AmpDriver>;
-    using O    = etl::optional<TrackedAmp>;
-    using V    = etl::variant<int, TrackedAmp>;
-    using X    = etl::expected<TrackedAmp, int>;
-    using SV   = etl::static_vector<TrackedAmp, 3>;
-    using IV   = etl::inplace_vector<TrackedAmp, 3>;
+// A UNION with user-provided special members: not a class in the sense of is_class, but an object with a lifetime all the
+// same - it must be constructed and destroyed like any other element.
+union TrackedUnion {
+    int v;
+    unsigned char bytes[4];
+
+    TrackedUnion()
+        : v(0)
+    {
+        reg().on_construct(this);
+    }
+
+    TrackedUnion(int x) // NOLINT
+        : v(x)
+    {
+        reg().on_construct(this);
+    }
+
+    TrackedUnion(TrackedUnion const& o)
+        : v(o.v)
+    {
+        reg().need_live(&o, "copy-from-dead");
+        reg().on_construct(this);
+    }
+
+    TrackedUnion(TrackedUnion&& o) noexcept
+        : v(o.v)
+    {
+        reg().need_live(&o, "move-from-dead");
+        reg().on_construct(this);
+    }
+
+    auto operator=(TrackedUnion const& o) -> TrackedUnion&
+    {
+        reg().need_live(this, "assign-to-dead");
+        v = o.v;
+        return *this;
+    }
+
+    ~TrackedUnion() { reg().on_destroy(this); }
+};
+
+template <typename E>
+struct OddElementDriver : DriverBase<OddElementDriver<E>> {
+    using Base = DriverBase<OddElementDriver<E>>;
+    using Base::begin_op;
+    using Base::call;
+    using Base::ctx;
+    using Base::observe;
+    using Base::plan;
+    using Base::skip;
+    using O    = etl::optional<E>;
+    using V    = etl::variant<int, E>;
+    using X    = etl::expected<E, int>;
+    using SV   = etl::static_vector<E, 3>;
+    using IV   = etl::inplace_vector<E, 3>;
 
     O* o   = nullptr;
     V* v   = nullptr;
@@ -2500,7 +2575,7 @@ struct AmpDriver : DriverBase<AmpDriver> {
     // model: the values held (empty / one / up to three)
     std::vector<int> m[5];
 
-    AmpDriver(Plan const& p, Ctx& c)
+    OddElementDriver(Plan const& p, Ctx& c)
         : Base(p, c)
     {
     }
@@ -2568,22 +2643,22 @@ struct AmpDriver : DriverBase<AmpDriver> {
                 switch (k) {
                 case 0:
                     if (st.k[0] % 2 == 0) {
-                        *o = TrackedAmp(val);
+                        *o = E(val);
                     } else {
                         o->emplace(val);
                     }
                     break;
                 case 1:
                     if (st.k[0] % 2 == 0) {
-                        *v = TrackedAmp(val);
+                        *v = E(val);
                     } else {
-                        v->emplace<1>(val);
+                        v->template emplace<1>(val);
                     }
                     break;
                 case 2: *x = X(etl::in_place, val); break;
                 case 3:
                     if (sv->size() < 3) {
-                        sv->push_back(TrackedAmp(val));
+                        sv->push_back(E(val));
                     }
                     break;
                 default: (void)iv->try_emplace_back(val); break;
@@ -2672,7 +2747,7 @@ struct AmpDriver : DriverBase<AmpDriver> {
                     if (v->index() == 1) {
                         got.push_back(etl::unchecked_get<1>(*v).v);
                         auto* byIndex = etl::get_if<1>(v);
-                        auto* byType  = etl::get_if<TrackedAmp>(v);
+                        auto* byType  = etl::get_if<E>(v);
                         void const* real = std::addressof(etl::unchecked_get<1>(*v));
                         if (static_cast<void const*>(byIndex) != real || static_cast<void const*>(byType) != real) {
                             got.back() = -32;
@@ -2983,11 +3058,24 @@ void register_ovx_2()
         Scenario sc;
         sc.family   = "ovx";
         sc.name     = "owners-of-an-element-overloading-operator&";
-        sc.ops      = AmpDriver::ops();
+        sc.ops      = OddElementDriver<TrackedAmp>::ops();
         sc.props    = {"C03", "C07", "C02"};
         sc.maxSteps = 30;
         sc.run      = [](Plan const& p, Ctx& c) {
-            AmpDriver d(p, c);
+            OddElementDriver<TrackedAmp> d(p, c);
+            d.run();
+        };
+        registry().push_back(std::move(sc));
+    }
+    {
+        Scenario sc;
+        sc.family   = "ovx";
+        sc.name     = "owners-of-a-union-element";
+        sc.ops      = OddElementDriver<TrackedUnion>::ops();
+        sc.props    = {"C03", "C07", "C02"};
+        sc.maxSteps = 30;
+        sc.run      = [](Plan const& p, Ctx& c) {
+            OddElementDriver<TrackedUnion> d(p, c);
             d.run();
         };
         registry().push_back(std::move(sc));
